@@ -69,6 +69,11 @@ EXTRA_DOCS = {
     "collide_schema": ('===COLLIDE===\nMETA:\n  TYPE::PROTOCOL_DEFINITION\n  VERSION::"1.0"\n---\nFIELDS:\n  Priority::["x"∧REQ]\n  PRIORITY::["y"∧OPT]\n'
                        '  A-B::[1∧TYPE[NUMBER]]\n  A_B::[2∧TYPE[NUMBER]]\n===END===\n'),
     "collide_schema2": ('===COLLIDE2===\nMETA:\n  TYPE::PROTOCOL_DEFINITION\n  VERSION::"1.0"\n---\nFIELDS:\n  Status::["x"∧REQ]\n  STATUS::["y"∧OPT]\n===END===\n'),
+    # field names made of separators only (the compiler has to invent a rule name for them)
+    "sep_schema": ('===SEP===\nMETA:\n  TYPE::PROTOCOL_DEFINITION\n  VERSION::"1.0"\n---\nFIELDS:\n  _::["x"∧REQ]\n  __::["y"∧OPT]\n  NAME::["n"∧REQ]\n===END===\n'),
+    # an unknown field under schemas whose POLICY blocks differ (DEBATE_TRANSCRIPT: UNKNOWN_FIELDS::WARN + TARGETS; SKILL: no POLICY; GENW: WARN)
+    "policy_skill": '---\nname: n\ndescription: d\n---\n===I===\nMETA:\n  TYPE::SKILL\n  VERSION::"1.0"\n---\nSKILL:\n  BOGUS_FIELD::1\n  NAME::n\n===END===\n',
+    "policy_dt": '===I===\nMETA:\n  TYPE::X\n  VERSION::"1.0"\n---\nDEBATE_TRANSCRIPT:\n  BOGUS_FIELD::1\n  NAME::n\n===END===\n',
     "multiline_str": '===M===\nK::"l1\\nl2"\nL::["a\\nb",c]\nB:\n  M::"x\\ny\\nz"\n===END===\n',
     "repairable": '===I===\nMETA:\n  TYPE::X\n  VERSION::"1.0"\n---\nGENW:\n  NAME::n\n  STATUS::active\n  COUNT::"5"\n===END===\n',
 }
@@ -105,7 +110,14 @@ def call_list():
         add("write", gen=True, content=text, lenient=True, schema="GENW", target_path="g.oct.md")
         add("api_validate", gen=True, content=text, schema="GENW")
         add("api_validate", gen=True, content=text, schema="GENW", strict=True)
-    for name in ("holo_schema", "contract", "collide_schema", "collide_schema2"):
+    for name in ("policy_skill", "policy_dt"):
+        cur["doc"] = "policy"          # one pair-alphabet group: schemas with and without a POLICY block asked one after the other
+        for sch in ("SKILL", "DEBATE_TRANSCRIPT", "TEST_HOLOGRAPHIC"):
+            add("validate", content=docs[name], schema=sch)
+    cur["doc"] = "policy"
+    add("compile", schema="SKILL", format="gbnf")
+    add("compile", schema="DEBATE_TRANSCRIPT", format="gbnf")
+    for name in ("holo_schema", "contract", "collide_schema", "collide_schema2", "sep_schema"):
         cur["doc"] = name
         add("api_gbnf", content=docs[name])
         add("compile", content=docs[name], format="json_schema")
@@ -242,7 +254,7 @@ def _run(ctx, root):
                            out[i][:500], ref[i][:300])
     # ---- (b) histories: every ordered pair over K'
     # K' = every kind of call on a set of documents chosen so that each pair of value kinds / schema features can collide
-    kp_docs = ["rich", "lenient", "bools", "floats", "genw_instance", "zone_routed", "holo_routed", "collide_schema"]
+    kp_docs = ["rich", "lenient", "bools", "floats", "genw_instance", "zone_routed", "holo_routed", "collide_schema", "policy"]
     if not ctx.quick:
         kp_docs += ["ints", "repairable", "collide_schema2", "zones", "holo_schema", "contract", "flat", "skill"]
     ids = [s["id"] for s in K if s["doc"] in kp_docs and not (ctx.quick and s["kind"] == "eject" and s["args"].get("format") in ("yaml", "octave"))]
